@@ -108,6 +108,49 @@ def run_case(close_raises, fail_submit, script, later_state=None):
         shutil.rmtree(wd, ignore_errors=True)
 
 
+def check_exit_paths():
+    """C09: whatever ends the `with backend:` block - normal end, a rejected submission, any other exception, Ctrl-C - the
+    ids accepted so far are on disk afterwards (TrackingBackend.__exit__)"""
+    from gwf.backends.base import TrackingBackend
+    from gwf.backends.exceptions import BackendError
+    from gwf.core import Target
+    problems, tried = [], 0
+    for exc in (None, BackendError("rejected"), RuntimeError("boom"), TypeError("garbage scheduler output"),
+                OSError("disk"), KeyboardInterrupt()):
+        for accepted_before in (1, 2):
+            tried += 1
+            wd = tempfile.mkdtemp(prefix="gwfverif-", dir=os.environ.get("GWF_VERIF_TMP") or None)
+            try:
+                os.makedirs(os.path.join(wd, ".gwf", "logs"))
+                ops = FakeOps()
+                tg = [Target(name=n, inputs=[], outputs=[], options={}, working_dir=wd) for n in ("a", "b", "c")]
+                want = {}
+                try:
+                    with TrackingBackend(wd, name="fake", ops=ops) as be:
+                        for t in tg[:accepted_before]:
+                            be.submit(t, [])
+                            want[t.name] = ops.accepted[-1][0]
+                        if exc is not None:
+                            raise exc
+                except BaseException as e:
+                    if e is not exc:
+                        problems.append(f"exit paths: unexpected {type(e).__name__}: {e}")
+                path = os.path.join(wd, ".gwf", "fake-backend-tracked.json")
+                try:
+                    on_disk = json.load(open(path))
+                except FileNotFoundError:
+                    on_disk = None
+                except ValueError:
+                    on_disk = "unreadable"
+                if on_disk != want:
+                    problems.append(f"exit paths: the run was interrupted by {type(exc).__name__ if exc else 'nothing'} after "
+                                    f"{accepted_before} accepted submission(s) {want}; the tracked-jobs file holds {on_disk}")
+                    return problems, tried
+            finally:
+                shutil.rmtree(wd, ignore_errors=True)
+    return problems, tried
+
+
 def check_cancel():
     """C17: cancel_many attempts the latest job of every selected target, whatever happens to the others"""
     import itertools as it
@@ -195,7 +238,13 @@ def replay_cancel(eng, ob, model, seed):
 
 
 def replay(eng, ob, model, seed):
+    pr, n_exit = check_exit_paths()
+    if pr:
+        return {"failed_on_real_code": True, "input": {"scenario": "with TrackingBackend(...) as backend: submit...; raise"},
+                "observed": pr, "candidates_tried": n_exit, "witness_class": "exit-path-loses-tracked-jobs",
+                "call": "TrackingBackend(wd, 'fake', ops=FakeOps()) used as a context manager"}
     w, tried = search()
+    tried += n_exit
     if w is None:
         return {"failed_on_real_code": False, "candidates_tried": tried,
                 "bound": "<=3 targets, <=3 submissions + close, then <=2 submissions in a second invocation + close; "
